@@ -318,8 +318,17 @@ class DropOne(Dense_):
         self._ind = ind
 
     def __getitem__(self, key: int):
+        if key.__class__ is not int:
+            ind = self._row.headers[key]
+            if ind == self._ind: raise KeyError(key)
+            return self._row[ind]
         if key >= self._ind: key += 1
         return self._row[key]
+
+    @property
+    def headers(self) -> Mapping[str,int]:
+        ind = self._ind
+        return { h:(i if i < ind else i-1) for h,i in self._row.headers.items() if i != ind }
 
     def __iter__(self) -> Iterator:
         row = self._row
